@@ -205,6 +205,31 @@ Proof. vm_compute. reflexivity. Qed.
 Lemma leaf_string_nonempty : (2000 <=? length src_leaf_string)%nat = true.
 Proof. vm_compute. reflexivity. Qed.
 
+
+(* ---------------------------------------------------------------- parser: the number parser, executed *)
+(* NumberBuf::parse_in -- the `while let` loop around the automaton, the buffer, the final `matches!` -- RUN by the
+   translator in each context (first item of an input word: the context's position in `enum Context`; `context.follows`
+   is the source's own) on every word of up to three characters over `0 1 - + . e E , ] space x`, longer numbers, and
+   failing source items.  Outcome: Ok -> [0; index; position; n; b1 .. bn] ++ code map; errors as for the leaf parsers. *)
+Definition ct_number_outcome (r : res (list N * N)) : list N :=
+  match r with
+  | Ok ((s, i), st) => [0; i; pos st; N.of_nat (length s)] ++ s ++ ct_flat (cm st)
+  | Err (EUnexpected p c) => [1; p; match c with Some c => c + 1 | None => 0 end]
+  | Err (EStream p) => [5; p]
+  | Err _ => [2]
+  | Panic _ => [3]
+  | OutOfFuel => [4]
+  end.
+Definition ct_number_on (table : list (list N * list N)) : list (list N * list N) :=
+  map (fun w => (w, match w with
+                    | k :: cs => ct_number_outcome (parse_number (nth (N.to_nat k) ct_contexts CNone) (ct_state cs))
+                    | [] => []
+                    end)) (map fst table).
+Theorem tie_leaf_number : src_leaf_number = ct_number_on src_leaf_number.
+Proof. vm_compute. reflexivity. Qed.
+Lemma leaf_number_nonempty : (5000 <=? length src_leaf_number)%nat = true.
+Proof. vm_compute. reflexivity. Qed.
+
 (* ---------------------------------------------------------------- printer: presets *)
 
 Definition cval_of_indent (i : indent) : cval :=
@@ -384,6 +409,10 @@ Theorem string_scanner_from_source :
   src_leaf_string = ct_string_on src_leaf_string /\ (2000 <=? length src_leaf_string)%nat = true.
 Proof. exact (conj tie_leaf_string leaf_string_nonempty). Qed.
 
+Theorem number_parser_from_source :
+  src_leaf_number = ct_number_on src_leaf_number /\ (5000 <=? length src_leaf_number)%nat = true.
+Proof. exact (conj tie_leaf_number leaf_number_nonempty). Qed.
+
 Theorem control_from_source :
   src_is_control = set_of Parser.is_control char_domain /\ (forall c, 256 <= c -> Parser.is_control c = false).
 Proof. exact (conj tie_is_control is_control_above). Qed.
@@ -446,6 +475,7 @@ Print Assumptions follows_from_source.
 Print Assumptions number_automaton_from_source.
 Print Assumptions leaf_parsers_from_source.
 Print Assumptions string_scanner_from_source.
+Print Assumptions number_parser_from_source.
 Print Assumptions parser_escapes_from_source.
 Print Assumptions surrogate_pair_from_source.
 Print Assumptions presets_from_source.
